@@ -33,7 +33,8 @@ SHAPES = {
 }
 
 
-def build(c, repo, shape, signs):
+def build(c, repo, shape, signs, prefix=""):
+    """`prefix` is put in front of the ids of the sub-propositions (explicit ids that merely LOOK generated: "VAR...")"""
     tree = SHAPES[shape]
     leaves = sorted({x for kids in tree.values() for x in kids if x not in tree})
     lo = {l: SInt(z3.Int(f"lo.{l}")) for l in leaves}
@@ -51,7 +52,7 @@ def build(c, repo, shape, signs):
         n = object.__new__(repo.plog.AtLeast)
         vals[name] = SInt(z3.Int(f"value.{name}"))
         n.__dict__.update(generated_id=False, sign=signs[name], value=vals[name], propositions=sorted(kids, key=lambda x: x.id),
-                          variable=mk_variable(repo, name, 0, 1))
+                          variable=mk_variable(repo, prefix + name, 0, 1))
         objs[name] = n
         order.append(name)
         return n
